@@ -1187,7 +1187,7 @@ def items_C09(tier, seed, P):
         for i in range(n):
             base.append({'op': 'downgrade', 'h': H(i), 'as': 'ow%d' % i})
         lays = std_layouts(n, tier, seed)[:4 if tier == 'quick' else 10]
-        if (n <= 2 and len(e) <= 2) or (tier != 'quick' and len(e) <= 4):
+        if (n <= 2 and len(e) <= 2) or (tier != 'quick' and len(e) <= 3):
             lays = lays + [('fork',)]
         for seq in F.drop_sequences(n, n):
             ops = list(base)
